@@ -291,11 +291,16 @@ def raw_dump(store, interner: Interner, fmt: int):
     return {"fmt": fmt, "items": items, "lossy": bool(lossy)}
 
 
+LAST_ERROR = [None]
+
+
 def try_raw_dump(store, interner: Interner, fmt: int):
+    """raw_dump, or None (reason in LAST_ERROR[0]) when some key cannot be read as a document / chunk of zarr format `fmt`"""
     try:
         return raw_dump(store, interner, fmt)
-    except Undecodable:
+    except Undecodable as e:
         STATS["undecodable"] += 1
+        LAST_ERROR[0] = str(e)
         return None
 
 
